@@ -69,6 +69,127 @@ class VisitorTranslator:
         return ".unknown"
 
 
+class FinderTranslator:
+    """`_JaxtypingFinder.should_instrument` / `find_spec` (Model/FinderDsl.lean)"""
+
+    def __init__(self, name_param, loop_var=None):
+        self.name_param = name_param
+        self.loop_var = loop_var
+        self.spec_var = None
+        self.loader_alias = set()
+        self.loop_body = None
+        self.notes = []
+
+    def cond(self, t):
+        if isinstance(t, ast.UnaryOp) and isinstance(t.op, ast.Not):
+            c = self.cond(t.operand)
+            return ".unknown" if c == ".unknown" else f"(.not {c})"
+        if isinstance(t, ast.BoolOp):
+            parts = [self.cond(v) for v in t.values]
+            if ".unknown" in parts:
+                return ".unknown"
+            op = ".or" if isinstance(t.op, ast.Or) else ".and"
+            r = parts[-1]
+            for x in reversed(parts[:-1]):
+                r = f"({op} {x} {r})"
+            return r
+        src = _u(t)
+        if self.loop_var and src == f"{self.name_param} == {self.loop_var}":
+            return ".eqModule"
+        if self.loop_var and src == f"{self.name_param}.startswith({self.loop_var} + '.')":
+            return ".startsWithDotted"
+        if src == f"self.should_instrument({self.name_param})":
+            return ".should"
+        if self.spec_var and src == f"{self.spec_var} is None":
+            return ".specIsNone"
+        if self.spec_var and src == f"{self.spec_var} is not None":
+            return "(.not .specIsNone)"
+        if self.spec_var and isinstance(t, ast.Call) and _u(t.func) == "isinstance" and len(t.args) == 2 and _u(t.args[1]) == "SourceFileLoader" \
+                and (_u(t.args[0]) == f"{self.spec_var}.loader" or _u(t.args[0]) in self.loader_alias):
+            return ".isSourceLoader"
+        self.notes.append("condition: " + src[:100])
+        return ".unknown"
+
+    def seq(self, stmts):
+        out = [x for x in (self.stmt(s) for s in _strip(stmts)) if x != ".skip"] or [".skip"]
+        r = out[-1]
+        for x in reversed(out[:-1]):
+            r = f"(.seq {x} {r})"
+        return r
+
+    def stmt(self, st):
+        if isinstance(st, ast.If):
+            return f"(.ite {self.cond(st.test)} {self.seq(st.body)} {self.seq(st.orelse)})"
+        if isinstance(st, ast.For) and not st.orelse and _u(st.iter) == "self.modules" and isinstance(st.target, ast.Name) and self.loop_body is None:
+            self.loop_var = st.target.id
+            self.loop_body = self.seq(st.body)
+            self.loop_var = None
+            return "(.forModules shouldLoopBody)"
+        if isinstance(st, ast.Return):
+            v = st.value
+            if v is None or (isinstance(v, ast.Constant) and v.value is None):
+                return ".retNone"
+            if isinstance(v, ast.Constant) and v.value is True:
+                return "(.retBool true)"
+            if isinstance(v, ast.Constant) and v.value is False:
+                return "(.retBool false)"
+            if self.spec_var and isinstance(v, ast.Name) and v.id == self.spec_var:
+                return ".retSpec"
+            # `return any(<cond> for module in self.modules)`
+            if isinstance(v, ast.Call) and _u(v.func) == "any" and len(v.args) == 1 and isinstance(v.args[0], (ast.GeneratorExp, ast.ListComp)) and self.loop_body is None:
+                g = v.args[0]
+                if len(g.generators) == 1 and not g.generators[0].ifs and _u(g.generators[0].iter) == "self.modules" and isinstance(g.generators[0].target, ast.Name):
+                    self.loop_var = g.generators[0].target.id
+                    c = self.cond(g.elt)
+                    self.loop_var = None
+                    self.loop_body = f"(.ite {c} (.retBool true) .skip)"
+                    return "(.seq (.forModules shouldLoopBody) (.retBool false))"
+        if isinstance(st, ast.Assign) and len(st.targets) == 1:
+            t, v = st.targets[0], st.value
+            if isinstance(t, ast.Name) and _u(v) == f"self._original_pathfinder.find_spec({self.name_param}, path, target)":
+                self.spec_var = t.id
+                return ".findOrig"
+            if isinstance(t, ast.Name) and self.spec_var and _u(v) == f"{self.spec_var}.loader":
+                self.loader_alias.add(t.id)          # `loader = spec.loader`
+                return ".skip"
+            if self.spec_var and _u(t) == f"{self.spec_var}.loader" and isinstance(v, ast.Call) and _u(v.func) == "_JaxtypingLoader":
+                names = {f"{self.spec_var}.loader"} | self.loader_alias
+                ok = len(v.args) == 2 and any(_u(v.args[0]) == n + ".name" for n in names) and any(_u(v.args[1]) == n + ".path" for n in names) \
+                    and len(v.keywords) == 1 and v.keywords[0].arg == "typechecker" and _u(v.keywords[0].value) == "self._typechecker"
+                if ok:
+                    return ".wrapLoader"
+        self.notes.append("statement: " + _u(st)[:100].replace("\n", " "))
+        return ".unknown"
+
+
+def translate_finder(tree, notes):
+    from inline import inline_helpers
+
+    cls = next((n for n in tree.body if isinstance(n, ast.ClassDef) and n.name == "_JaxtypingFinder"), None)
+    should = findspec = loop = ".unknown"
+    if cls is None or cls.decorator_list:
+        notes.append("_JaxtypingFinder not found / decorated")
+        return loop, should, findspec
+    si = next((m for m in cls.body if isinstance(m, ast.FunctionDef) and m.name == "should_instrument"), None)
+    if si is not None and len(si.args.args) == 2 and not si.decorator_list:
+        t = FinderTranslator(si.args.args[1].arg)
+        should = t.seq(inline_helpers(si, tree, cls).body)
+        loop = t.loop_body or ".unknown"
+        notes += ["should_instrument: " + n for n in t.notes]
+    else:
+        notes.append("should_instrument not found / unexpected parameters")
+    fs = next((m for m in cls.body if isinstance(m, ast.FunctionDef) and m.name == "find_spec"), None)
+    if fs is not None and [a.arg for a in fs.args.args] == ["self", "fullname", "path", "target"] and not fs.decorator_list:
+        t = FinderTranslator("fullname")
+        findspec = t.seq(inline_helpers(fs, tree, cls, exclude=("should_instrument",)).body)
+        if t.loop_body is not None:
+            findspec = ".unknown"
+        notes += ["find_spec: " + n for n in t.notes]
+    else:
+        notes.append("find_spec not found / unexpected parameters")
+    return loop, should, findspec
+
+
 def run(import_rule=None):
     from inline import inline_helpers
 
@@ -94,9 +215,11 @@ def run(import_rule=None):
         t = VisitorTranslator(import_rule)
         codes[name] = t.seq(inline_helpers(m, tree, cls).body)
         notes += [f"{name}: {n}" for n in t.notes]
+    loop, should, findspec = translate_finder(tree, notes)
     note = ("(" + "; ".join(notes)[:400].replace("-/", "- /") + ")") if notes else ""
     txt = f"""/- GENERATED by harness/translate_hook.py from {REPO}/jaxtyping/_import_hook.py on every run. Do not edit. -/
 import JaxVerif.Model.HookDsl
+import JaxVerif.Model.FinderDsl
 
 namespace JV.Generated
 
@@ -110,10 +233,19 @@ def visitClassDefCode : HStmt :=
 def visitModuleCode : HStmt :=
   {codes['visit_Module']}
 
+/-- `_JaxtypingFinder.should_instrument(self, module_name)`: the body of its loop over `self.modules`, and the method -/
+def shouldLoopBody : FStmt :=
+  {loop}
+def shouldCode : FStmt :=
+  {should}
+/-- `_JaxtypingFinder.find_spec(self, fullname, path=None, target=None)` -/
+def findSpecCode : FStmt :=
+  {findspec}
+
 end JV.Generated
 """
     write_if_changed(os.path.join(GEN, "HookCode.lean"), txt)
-    return {"hook_notes": notes, "codes": codes, "base": base}
+    return {"hook_notes": notes, "codes": codes, "base": base, "finder": [loop, should, findspec]}
 
 
 if __name__ == "__main__":
